@@ -1030,12 +1030,15 @@ impl<'a> PGen<'a> {
 
     /// Receipt flood: `logs` LOG receipts in a tight loop before the ordinary items (C28: the
     /// 65 535-receipt limit and the two reserved slots).
-    pub fn flood_program(mut self, logs: u64, n: usize) -> Vec<u32> {
+    pub fn flood_program(mut self, logs: u64, n: usize, call_first: bool) -> Vec<u32> {
         self.preamble();
         self.load_const(CNT, logs);
         emit!(self, r4(O::LOG, CNT, ZERO, ZERO, ZERO));
         emit!(self, ri12(O::SUBI, CNT, CNT, 1));
         emit!(self, ri12(O::JNZB, CNT, ZERO, 1));
+        if call_first {
+            self.call();
+        }
         for _ in 0..n {
             self.item(0);
         }
